@@ -326,6 +326,12 @@ func (c *oCache) TryRemove(id string) (ok bool, err error) {
 	closed, err := e.value.TryClose(c.ttl)
 	if err != nil {
 		c.log.With("object_id", e.id).Warnf("try remove err: %v", err)
+		// the entry must not stay in closing state, lookups and removers wait for it to leave it
+		if closed {
+			c.closeAndDelete(e)
+		} else {
+			e.setActive(true)
+		}
 		return closed, err
 	}
 
